@@ -40,20 +40,38 @@ def fn (name : String) (ty : KTy) (lo nullFrom : Nat) : KField := .mk name ty lo
 def fu (name : String) (ty : KTy) (lo : Nat) : KField := .mk name ty lo none none true
 def arr (fs : List KField) : KTy := .array (.struct fs)
 
+/-- ids of the tagged fields that `stripTagged` keeps -/
+def stripIds : List Int → List Ty → List Int
+  | i :: is, t :: ts => if t.zeroSize then stripIds is ts else i :: stripIds is ts
+  | _, _ => []
+
+mutual
 /-- drop the zero-size marker fields (`_ struct{}`) of a resolved tree schema -/
-partial def strip : Ty → Ty
+def strip : Ty → Ty
   | .array c n e => .array c n (strip e)
-  | .struct fl fs ids ts =>
-    let keep := (ids.zip ts).filter fun (_, t) => !t.zeroSize
-    .struct fl ((fs.filter (!·.zeroSize)).map strip) (keep.map (·.1)) (keep.map fun (_, t) => strip t)
+  | .struct fl fs ids ts => .struct fl (stripList fs) (stripIds ids ts) (stripTagged ts)
   | t => t
+def stripList : List Ty → List Ty
+  | [] => []
+  | t :: ts => if t.zeroSize then stripList ts else strip t :: stripList ts
+def stripTagged : List Ty → List Ty
+  | [] => []
+  | t :: ts => if t.zeroSize then stripTagged ts else strip t :: stripTagged ts
+end
 
 def hintNullable : Option Ty → Bool
   | some (.string _ n) | some (.bytes _ n) | some (.array _ n _) => n
   | _ => false
 
+def KField.live (v : Nat) : KField → Bool
+  | .mk _ _ lo hi _ _ => lo ≤ v && (match hi with | some h => v ≤ h | none => true)
+
+def liveCount (v : Nat) : List KField → Nat
+  | [] => 0
+  | f :: fs => (if f.live v then 1 else 0) + liveCount v fs
+
 mutual
-partial def kResolve (flex : Bool) (v : Nat) (nullable : Bool) (hint : Option Ty) (unsure : Bool) : KTy → Ty
+def kResolve (flex : Bool) (v : Nat) (nullable : Bool) (hint : Option Ty) (unsure : Bool) : KTy → Ty
   | .bool => .bool | .int8 => .int8 | .int16 => .int16 | .int32 => .int32 | .int64 => .int64
   | .float64 => .float64
   | .string => .string flex nullable
@@ -63,15 +81,20 @@ partial def kResolve (flex : Bool) (v : Nat) (nullable : Bool) (hint : Option Ty
     let eh := match hint with | some (.array _ _ h) => some h | _ => none
     .array flex nullable (kResolve flex v (unsure && hintNullable eh) eh unsure e)
   | .struct fs =>
-    let live := fs.filter fun | .mk _ _ lo hi _ _ => lo ≤ v && (match hi with | some h => v ≤ h | none => true)
+    let n := liveCount v fs
     let hints : List (Option Ty) := match hint with
-      | some (.struct _ hs _ _) => if hs.length == live.length then hs.map some else live.map fun _ => none
-      | _ => live.map fun _ => none
-    .struct flex ((live.zip hints).map fun (fld, h) => kResolveField flex v h fld) [] []
-partial def kResolveField (flex : Bool) (v : Nat) (hint : Option Ty) : KField → Ty
-  | .mk _ ty _ _ nullFrom unsure =>
-    let nullable := if unsure then hintNullable hint else match nullFrom with | some n => n ≤ v | none => false
-    kResolve flex v nullable hint unsure ty
+      | some (.struct _ hs _ _) => if hs.length == n then hs.map some else List.replicate n none
+      | _ => List.replicate n none
+    .struct flex (kResolveFields flex v hints fs) [] []
+/-- the live fields in order; `hints` is aligned with the live fields -/
+def kResolveFields (flex : Bool) (v : Nat) : List (Option Ty) → List KField → List Ty
+  | _, [] => []
+  | hints, (.mk name ty lo hi nullFrom unsure) :: rest =>
+    if (KField.mk name ty lo hi nullFrom unsure).live v then
+      let hint := hints.headD none
+      let nullable := if unsure then hintNullable hint else match nullFrom with | some n => n ≤ v | none => false
+      kResolve flex v nullable hint unsure ty :: kResolveFields flex v hints.tail rest
+    else kResolveFields flex v hints rest
 end
 
 /-! ### the table -/
